@@ -13,8 +13,8 @@
    inferred verdicts), the always-safe deletion (modelled for the correspondence, excluded from the theorem by
    r_nodel = true). *)
 From Coq Require Import List Bool Arith.
-From NM Require Import Engine EngineSpec MiniGo Flow Guard Nonce.
-From NP Require Import EngineMain FlowProofs GuardProofs WholeProofs NonceProofs.
+From NM Require Import Engine EngineSpec MiniGo Flow Guard Nonce RichFlow.
+From NP Require Import EngineMain FlowProofs GuardProofs WholeProofs NonceProofs RichFlowProofs.
 Import ListNotations.
 
 (* a program using the convention that analyses clean never panics -- in particular not on a guarded result *)
@@ -97,3 +97,22 @@ Example C08_nonce_example :
   nrun [[]; []; []] [OAdd 0 [1; 2; 3]; OAdd 1 [2; 3; 4]; OInter 2 0 [1]; OEq 2 0; OSubset 2 0; ORemove 0 [1]; OEq 2 0; OContains 1 4]
   = ([[2; 3]; [2; 3; 4]; [2; 3]], [false; true; true; true]).
 Proof. exact nonce_example. Qed.
+
+(* ---- how far a check reaches (model M13 = weakPropagateRichChecks / genPreds / propagateRichChecks, tied by a
+   correspondence on random control-flow graphs) ----
+   `x, err := f()` creates an effect in its block; a later `err != nil` test can discharge the guard of x only where the
+   effect still holds.  propagate computes, for every block, the effects that hold at its end; Lost g rt e b says e is lost
+   at b: b does not create it and (no live predecessor of b is reachable from the creating block, or b invalidates it, or it
+   is lost at a live predecessor reachable from the creating block).  The result is exactly the complement of Lost -- the
+   GREATEST solution: an effect is dropped only if some path from its creation really invalidates it (third clause of C08;
+   finding F26 was the least solution, which loses every effect at the header of an enclosing loop). *)
+Theorem C08_rich_checks_reach_exactly_where_not_lost : forall g fuel s,
+  wf_rcfg g = true -> propagate g fuel = Some s ->
+  exists rt, reach_table g = Some rt /\
+    forall b e, b < nblocks g -> In e (effects g) -> (In e (at_ s b) <-> ~ Lost g rt e b).
+Proof. exact propagate_is_gfp. Qed.
+Print Assumptions C08_rich_checks_reach_exactly_where_not_lost.
+Example C08_rich_checks_nested_loops :
+  propagate (ex_nested []) 50 = Some [[7]; [7]; [7]; [7]; [7]] /\ propagate (ex_nested [7]) 50 = Some [[]; []; [7]; []; []] /\
+  wf_rcfg (ex_nested []) = true.
+Proof. exact propagate_examples. Qed.
